@@ -55,6 +55,9 @@ type World struct {
 	Pars   []Par // index app-1
 	// observation ledgers (recorded, never judged here): cumulative matching residue per pair
 	Xs map[[2]int64][2]int64 // (app,pair) -> (base excess, quote excess), cumulative over the run
+	// the harness's OWN batch clock: per order (app,pair,id) the number of end-of-blocks with a due batch of its app
+	// (height % BatchSize = 0, from the configured parameters) that have run since the order was placed
+	Og map[[3]int64]int64
 }
 
 func decFrac(n, d int64) sdkmath.LegacyDec {
@@ -88,7 +91,7 @@ func NewWorld(pars []Par, rich int64) *World {
 			sdk.NewInt64Coin("ucc", amt), sdk.NewInt64Coin(FeeDenom, amt))})
 	}
 	e := sim.New(funds)
-	w := &World{Env: e, K: e.App.LiquidityKeeper, Acct: map[string]sdk.AccAddress{}, Name: map[string]string{}, Pars: pars, Xs: map[[2]int64][2]int64{}}
+	w := &World{Env: e, K: e.App.LiquidityKeeper, Acct: map[string]sdk.AccAddress{}, Name: map[string]string{}, Pars: pars, Xs: map[[2]int64][2]int64{}, Og: map[[3]int64]int64{}}
 	for _, a := range []struct{ n, d string }{{"AAA", "uaa"}, {"BBB", "ubb"}, {"CCC", "ucc"}, {"CMDX", FeeDenom}} {
 		if err := e.App.AssetKeeper.AddAssetRecords(e.Ctx, assettypes.Asset{Name: a.n, Denom: a.d, Decimals: sdk.NewInt(1), IsOnChain: true}); err != nil {
 			panic(err)
@@ -144,6 +147,10 @@ func NewWorld(pars []Par, rich int64) *World {
 func (w *World) Branch() *World {
 	n := *w
 	n.Env = w.Env.Branch()
+	n.Og = map[[3]int64]int64{}
+	for k, v := range w.Og {
+		n.Og[k] = v
+	}
 	n.Xs = map[[2]int64][2]int64{}
 	for k, v := range w.Xs {
 		n.Xs[k] = v
@@ -263,7 +270,7 @@ func (w *World) Project() M {
 				dir = "S"
 			}
 			orders = append(orders, M{"app": int64(o.AppId), "pair": int64(o.PairId), "id": int64(o.Id), "owner": w.nameOf(o.Orderer), "typ": typ, "dir": dir,
-				"offer": i64(o.OfferCoin.Amount), "rem": i64(o.RemainingOfferCoin.Amount), "recv": i64(o.ReceivedCoin.Amount),
+				"od": o.OfferCoin.Denom, "dd": o.ReceivedCoin.Denom, "offer": i64(o.OfferCoin.Amount), "rem": i64(o.RemainingOfferCoin.Amount), "recv": i64(o.ReceivedCoin.Amount),
 				"amt": i64(o.Amount), "open": i64(o.OpenAmount), "price": PriceOfDec(o.Price), "batch": int64(o.BatchId),
 				"exp": int64(o.ExpireAt.Sub(sim.GenesisTime) / time.Second), "status": ostatus(o.Status)})
 		}
@@ -320,7 +327,23 @@ func (w *World) Project() M {
 			}
 		}
 	}
-	return M{"h": ctx.BlockHeight(), "t": w.T(), "bal": bal, "pairs": pairs, "pools": pools, "reqs": reqs, "orders": orders, "qf": qf, "af": af,
+	og := []M{}
+	for _, o := range orders {
+		kk := [3]int64{o["app"].(int64), o["pair"].(int64), o["id"].(int64)}
+		og = append(og, M{"app": kk[0], "pair": kk[1], "id": kk[2], "eb": w.Og[kk]})
+	}
+	for kk := range w.Og { // forget deleted orders
+		found := false
+		for _, o := range orders {
+			if kk == [3]int64{o["app"].(int64), o["pair"].(int64), o["id"].(int64)} {
+				found = true
+			}
+		}
+		if !found {
+			delete(w.Og, kk)
+		}
+	}
+	return M{"og": og, "h": ctx.BlockHeight(), "t": w.T(), "bal": bal, "pairs": pairs, "pools": pools, "reqs": reqs, "orders": orders, "qf": qf, "af": af,
 		"mmx": mmx, "lastPair": lastPair, "lastPool": lastPool, "par": pars, "inv": inv, "xs": xs, "tainted": tainted, "taint": taint}
 }
 
@@ -408,6 +431,12 @@ func (w *World) Msg(a string, args M) sdk.Msg {
 		if gets(args, "dir") == "S" {
 			dir, od, dd = ltypes.OrderDirectionSell, b, q
 		}
+		if x := gets(args, "od"); x != "" { // coins named by the message (default: the pair's)
+			od = x
+		}
+		if x := gets(args, "dd"); x != "" {
+			dd = x
+		}
 		life := time.Duration(geti(args, "life")) * time.Second
 		if a == "LimitOrder" {
 			return ltypes.NewMsgLimitOrder(app, u, uint64(geti(args, "pair")), dir, sdk.NewInt64Coin(od, geti(args, "offer")), dd,
@@ -447,6 +476,12 @@ func (w *World) Exec(a string, args M) M {
 		pre := w.Project()
 		br := sim.EndBlockOn(w.Env.App, w.Env.Ctx)
 		w.observeMatch(pre, w.Project())
+		for _, o := range pre["orders"].([]M) { // own clock: every order placed before this end-of-block has seen one more due batch
+			app := o["app"].(int64)
+			if w.Env.Ctx.BlockHeight()%w.Pars[app-1].Batch == 0 {
+				w.Og[[3]int64{app, o["pair"].(int64), o["id"].(int64)}]++
+			}
+		}
 		return M{"ok": !br.Panic, "panic": br.Panic, "err": br.Err}
 	case "BeginBlock":
 		dt := time.Duration(geti(args, "dt")) * time.Second
